@@ -159,6 +159,17 @@ func genC18(tier string, r *Rng, emit func(Case)) {
 			emit(Case{Ver: c.Ver, Op: "VHist", Args: c.Args})
 		}
 	})
+	// fixed cases: lazy forward searches on fresh Numbers whose view ends one past a block boundary, the pattern
+	// sitting on the view's last digits
+	for _, E := range []int{101, 201, 1001, 100, 102} {
+		rep := []int{1, 2, 3, 4, 5, 6, 7}
+		pat := toks{"2", itoa(rep[(E-2)%7]), itoa(rep[(E-1)%7])}
+		for _, fn := range []int{5, 0, 2} {
+			args := append(toks{"C09", "Find", "T", "0", "7", "1", "2", "3", "4", "5", "6", "7", "1", "-1", itoa(E)}, pat...)
+			args = append(args, itoa(fn), "200")
+			emit(Case{Ver: "all", Op: "Tri", Args: args})
+		}
+	}
 	// depth: roots and rationals far beyond what the model-side oracle reaches on every case
 	depth := 3000
 	nrad := 10
